@@ -37,8 +37,9 @@ func newSession(t triple, sid sessionID, mon *lib.Monitor, salt string) *session
 	r := seqRand(sid.Seed, sid.Triple+"/"+salt, sid.Seq)
 	s := &session{t: t, r: r, g: pbgen.New(r), ids: map[string]int{}, maskIDs: map[string]int{}, mon: mon, sid: sid}
 	s.g.MaxDepth = 2
-	cl, _ := t.Row.New()
+	cl, model := t.Row.New()
 	s.client = reflect.ValueOf(cl)
+	s.pokes = pokeMethods(model, t.resource)
 	s.singleItem = true
 	s.input = func(n int) any {
 		return map[string]any{"kind": sid.Kind, "triple": sid.Triple, "seed": sid.Seed, "seq": sid.Seq, "steps": n, "trace": tailTrace(s.trace, 16)}
@@ -46,6 +47,15 @@ func newSession(t triple, sid sessionID, mon *lib.Monitor, salt string) *session
 	s.lines, s.verdict = []string{"reset"}, []string{"ok"}
 	s.step = -1
 	return s
+}
+
+// write makes one register write: an Update RPC, or a model-level write where the service has none (Get/Pull pairs).
+func (s *session) write() {
+	if s.t.isPair() {
+		s.doPoke()
+	} else {
+		s.doUpdate()
+	}
 }
 
 func (s *session) cancelAll() {
